@@ -11,6 +11,8 @@ import (
 
 	gnet "github.com/panjf2000/gnet/v2"
 
+	"github.com/panjf2000/gnet/v2/pkg/vpoolbs"
+	"github.com/panjf2000/gnet/v2/pkg/vpoolrb"
 	"github.com/panjf2000/gnet/v2/pkg/vsys"
 	"github.com/panjf2000/gnet/v2/zzverif/vlib"
 )
@@ -24,6 +26,10 @@ func main() {
 		scratchDir = os.TempDir()
 	}
 	mode := *vlib.FlagMode
+	// in-situ pool ledger (flavour "pool"): the framework's own Get/Put calls go through the wrapper packages
+	vpoolbs.Enabled.Store(vsys.Pooled)
+	vpoolrb.Enabled.Store(vsys.Pooled)
+	defer collectPoolAlarms()
 	// the textual shim log is the witness of ledger / fault findings; it is too costly for the bulk-traffic modes
 	vsys.Tracing.Store(os.Getenv("VERIF_TRACE") != "" || mode == "c04" || mode == "c06" || mode == "c07" || mode == "c18" || mode == "c19")
 	keys := map[string]struct{}{}
@@ -237,7 +243,25 @@ func main() {
 	for k := range keys {
 		res.Distinct(k)
 	}
+	collectPoolAlarms()
 	res.Finish()
+}
+
+// collectPoolAlarms turns alarms of the in-situ pool ledger into violations.
+func collectPoolAlarms() {
+	if !vsys.Pooled {
+		return
+	}
+	for _, a := range vpoolbs.Alarms() {
+		res.Violate("C12 in-situ byteslice.Get aliases memory the framework still holds", a, nil)
+	}
+	for _, a := range vpoolrb.Alarms() {
+		res.Violate("C12 in-situ ringbuffer.Get handed out a ring that is held or not empty", a, nil)
+	}
+	res.Obs("insitu_byteslice_gets", vpoolbs.Gets.Swap(0))
+	res.Obs("insitu_byteslice_puts", vpoolbs.Puts.Swap(0))
+	res.Obs("insitu_ring_gets", vpoolrb.Gets.Swap(0))
+	res.ObsMax("max:insitu_ranges_tracked", int64(vpoolbs.Tracked()))
 }
 
 func runLifeMode(mode string, r *vlib.Rand, keys map[string]struct{}) {
